@@ -459,3 +459,133 @@ func definitionCycleCase(i int) *sem.Case {
 	}
 	return c
 }
+
+// enumTripleCase: three enums that want ONE Go type name - A, B, B' with B' listing the same values as B and A others
+// - in every order, as three definitions whose names normalise alike, as a definition called Mode in each of three
+// files of one run, and as nested properties; typed and untyped strings, integers, numbers. Every position accepts
+// exactly its own list (and the constants of every list exist - the C08 census).
+func enumTripleCase(i int) *sem.Case {
+	kind := i % 4
+	orders := [][3]int{{0, 1, 1}, {1, 0, 1}, {1, 1, 0}, {0, 1, 0}, {0, 0, 1}, {1, 0, 0}}
+	ord := orders[(i/4)%len(orders)]
+	layout := (i / 24) % 3
+	mk := func(which int) (*sg.Schema, []any, []any) {
+		var vals [2][]any
+		s := &sg.Schema{HasEnum: true}
+		switch kind {
+		case 0:
+			s.Types = []string{"string"}
+			vals = [2][]any{{"fast", "slow"}, {"on", "off"}}
+		case 1:
+			vals = [2][]any{{"fast", "slow"}, {"on", "off"}}
+		case 2:
+			s.Types = []string{"integer"}
+			vals = [2][]any{{jsonx.N(1), jsonx.N(2)}, {jsonx.N(3), jsonx.N(4)}}
+		default:
+			s.Types = []string{"number"}
+			vals = [2][]any{{jsonx.Num("0.5"), jsonx.Num("1.5")}, {jsonx.Num("0.25"), jsonx.Num("1.5")}}
+		}
+		s.Enum = vals[which]
+		return s, vals[which], vals[1-which]
+	}
+	root := &sg.Schema{Types: []string{"object"}}
+	c := &sem.Case{Root: root, Sig: fmt.Sprintf("enum-triple/%d/%v/%d", kind, ord, layout), NoAuto: true}
+	names := [3]string{"Mode", "mode", "MODE"}
+	all := jsonx.Obj{}
+	for k := 0; k < 3; k++ {
+		d, own, other := mk(ord[k])
+		key := fmt.Sprintf("p%d", k)
+		wrapV := func(v any) any { return v }
+		switch layout {
+		case 0:
+			root.Defs = append(root.Defs, sg.Prop{Name: names[k], S: d})
+			root.Props = append(root.Props, sg.Prop{Name: key, S: &sg.Schema{Ref: "#/$defs/" + names[k], Target: d}})
+		case 1:
+			file := fmt.Sprintf("lib/%s.json", []string{"alpha", "beta", "gamma"}[k])
+			lib := &sg.Schema{Types: []string{"object"}, Defs: []sg.Prop{{Name: "Mode", S: d}}, Props: []sg.Prop{{Name: "m", S: &sg.Schema{Ref: "#/$defs/Mode", Target: d}}}}
+			c.Extra = append(c.Extra, batch.File{Path: file, Data: jsonx.MarshalIndent(lib.ToJSON())})
+			if k%2 == 0 {
+				root.Props = append(root.Props, sg.Prop{Name: key, S: &sg.Schema{Ref: file + "#/$defs/Mode", Target: d}})
+			} else {
+				root.Props = append(root.Props, sg.Prop{Name: key, S: &sg.Schema{Types: []string{"array"}, Items: &sg.Schema{Ref: file + "#/$defs/Mode", Target: d}}})
+				wrapV = func(v any) any { return []any{v} }
+			}
+		default:
+			key = []string{"net", "net_", "Net"}[k]
+			root.Props = append(root.Props, sg.Prop{Name: key, S: &sg.Schema{Types: []string{"object"}, Props: []sg.Prop{{Name: "mode", S: d}}}})
+			wrapV = func(v any) any { return jsonx.Obj{{K: "mode", V: v}} }
+		}
+		all = append(all, jsonx.KV{K: key, V: wrapV(own[1])})
+		for _, v := range own {
+			c.Docs = append(c.Docs, docgen.Doc{V: jsonx.Obj{{K: key, V: wrapV(v)}}, Class: "enum", Label: "own-member"})
+		}
+		for _, v := range other {
+			isOwn := false
+			for _, o := range own {
+				isOwn = isOwn || string(jsonx.Marshal(o)) == string(jsonx.Marshal(v))
+			}
+			if !isOwn {
+				c.Docs = append(c.Docs, docgen.Doc{V: jsonx.Obj{{K: key, V: wrapV(v)}}, Class: "enum", Label: "member-of-the-other-list"})
+			}
+		}
+	}
+	c.Docs = append(c.Docs, docgen.Doc{V: all, Class: "enum", Label: "all-own"})
+	return c
+}
+
+// sharedOutputCase: two or three schema files of one invocation, each with an id of its own and each NAMED in a mapping
+// option (--schema-root-type, or --schema-package / --schema-output with the same value for all), all landing in ONE
+// output file and package; with and without references between them. One file, one package clause, every
+// declaration once (C01: the file is valid Go; C02: both root types decode their documents).
+func sharedOutputCase(i int) *sem.Case {
+	variant := i % 4
+	withRef := (i/4)%2 == 1
+	three := (i/8)%2 == 1
+	mk := func(name string, k int) *sg.Schema {
+		return &sg.Schema{ID: "https://example.com/shared-out/" + name, Types: []string{"object"}, Props: []sg.Prop{
+			{Name: name + "No", S: &sg.Schema{Types: []string{"integer"}, Min: sg.Fp(float64(k))}}, {Name: "label", S: &sg.Schema{Types: []string{"string"}, MinLen: 1}}}, Required: []string{name + "No"}}
+	}
+	cust, inv, rec := mk("customer", 1), mk("invoice", 2), mk("receipt", 3)
+	if withRef {
+		inv.Props = append(inv.Props, sg.Prop{Name: "payer", S: &sg.Schema{Ref: "customer.json", Target: cust}})
+	}
+	c := &sem.Case{Root: cust, RootFile: "customer.json", Sig: fmt.Sprintf("shared-output/%d/%v/%v", variant, withRef, three), NoAuto: true}
+	g1 := &sem.Case{Root: inv, RootFile: "invoice.json", Sig: c.Sig, NoAuto: true}
+	c.Group = []*sem.Case{g1}
+	roots := []*sg.Schema{cust, inv}
+	if three {
+		c.Group = append(c.Group, &sem.Case{Root: rec, RootFile: "receipt.json", Sig: c.Sig, NoAuto: true})
+		roots = append(roots, rec)
+	}
+	typeNames := []string{"Customer", "Invoice", "Receipt"}
+	units := append([]*sem.Case{c}, c.Group...)
+	for k, r := range roots {
+		switch variant {
+		case 0: // root-type mappings only
+			c.Args = append(c.Args, "--schema-root-type", r.ID+"="+typeNames[k])
+			units[k].RootType = typeNames[k]
+		case 1: // the same package and output spelled out for every id
+			c.Args = append(c.Args, "--schema-package", r.ID+"={{PKG}}", "--schema-output", r.ID+"={{OUT}}/gen.go")
+		case 2: // everything
+			c.Args = append(c.Args, "--schema-root-type", r.ID+"="+typeNames[k], "--schema-package", r.ID+"={{PKG}}", "--schema-output", r.ID+"={{OUT}}/gen.go")
+			units[k].RootType = typeNames[k]
+		default: // only the later ones are mapped
+			if k > 0 {
+				c.Args = append(c.Args, "--schema-root-type", r.ID+"="+typeNames[k])
+				units[k].RootType = typeNames[k]
+			}
+		}
+	}
+	names := []string{"customer", "invoice", "receipt"}
+	for k, u := range units {
+		n := names[k]
+		u.Docs = append(u.Docs, docgen.Doc{V: jsonx.Obj{{K: n + "No", V: jsonx.N(int64(k + 1))}, {K: "label", V: "l"}}, Class: "valid", Label: "shared-output-valid"},
+			docgen.Doc{V: jsonx.Obj{{K: n + "No", V: jsonx.N(int64(k))}}, Class: "bound", Label: "shared-output-low"},
+			docgen.Doc{V: jsonx.Obj{{K: "label", V: "l"}}, Class: "required", Label: "shared-output-missing"})
+	}
+	if withRef {
+		g1.Docs = append(g1.Docs, docgen.Doc{V: jsonx.Obj{{K: "invoiceNo", V: jsonx.N(2)}, {K: "payer", V: jsonx.Obj{{K: "customerNo", V: jsonx.N(1)}}}}, Class: "valid", Label: "shared-output-ref"},
+			docgen.Doc{V: jsonx.Obj{{K: "invoiceNo", V: jsonx.N(2)}, {K: "payer", V: jsonx.Obj{{K: "label", V: "x"}}}}, Class: "required", Label: "shared-output-ref-missing"})
+	}
+	return c
+}
